@@ -182,7 +182,7 @@ class Gen:
     """One random program.  `hazard_free_bias`: probability of keeping later operands shallow."""
 
     def __init__(self, rng, size=8, depth=3, p_call=0.55, lazy=0.0, raising=0.06, walrus=0.06, shallow_bias=0.5,
-                 temp_names=False):
+                 temp_names=False, frag=False):
         self.rng, self.size, self.depth = rng, size, depth
         self.p_call, self.lazy, self.raising, self.walrus = p_call, lazy, raising, walrus
         self.shallow_bias = shallow_bias
@@ -190,6 +190,7 @@ class Gen:
         self.feats = set()
         self.tmpv = 0
         self.temp_names = temp_names
+        self.frag = frag      # only constructs of the fragment of C18_sem_partial
 
     # -------------------------------------------------------------- names / tags
     def newtag(self):
@@ -228,19 +229,19 @@ class Gen:
         parts = []
         n = r.choice([0, 1, 1, 2, 2, 3])
         for k in range(n):
-            if seqs and r.random() < 0.12:
+            if seqs and not self.frag and r.random() < 0.12:
                 self.feats.add('starred')
                 parts.append('*' + self.seq_expr(d - 1, ints, seqs))
-            elif r.random() < 0.08:
+            elif not self.frag and r.random() < 0.08:
                 parts.append(self.any_expr(d - 1, ints, seqs))
             else:
                 parts.append(self.operand(d - 1, ints, seqs, first=(k == 0)))
-        if r.random() < 0.2:
+        if not self.frag and r.random() < 0.2:
             self.feats.add('keyword')
             parts.append('k=' + self.operand(d - 1, ints, seqs, first=not parts))
             if r.random() < 0.3:
                 parts.append('j=' + self.operand(d - 1, ints, seqs, first=False))
-        if r.random() < 0.06:
+        if not self.frag and r.random() < 0.06:
             self.feats.add('dstar')
             parts.append("**{'z': %s}" % self.operand(d - 1, ints, seqs, first=not parts))
         return parts
@@ -253,6 +254,8 @@ class Gen:
             head = r.choice(['O', 'O.o1']) + '.m%d' % r.randint(1, 3)
             return '%s(%s)' % (head, ', '.join(self.call_args(d, ints, seqs)))
         return 'tr(%s)' % ', '.join([str(self.newtag())] + self.call_args(d, ints, seqs))
+
+    _nw = False
 
     def int_expr(self, d, ints, seqs):
         r = self.rng
@@ -279,18 +282,12 @@ class Gen:
         if x < 0.64:
             self.feats.add('subscript')
             base = r.choice(['O', 'O', 'O.o1'])
-            y = r.random()
-            if y < 0.55:
-                return '%s[%s]' % (base, self.operand(d - 1, ints, seqs, False))
-            if y < 0.8:
-                self.feats.add('slice')
-                lo = self.operand(d - 1, ints, seqs) if r.random() < 0.8 else ''
-                hi = self.operand(d - 1, ints, seqs, False) if r.random() < 0.8 else ''
-                st = (':' + self.operand(d - 1, ints, seqs, False)) if r.random() < 0.3 else ''
-                return '%s[%s:%s%s]' % (base, lo, hi, st)
-            self.feats.add('tuple-index')
-            return '%s[%s, %s]' % (base, self.operand(d - 1, ints, seqs), self.operand(d - 1, ints, seqs, False))
-        if x < 0.64 + self.walrus and ints:
+            old_nw, self._nw = self._nw, True
+            try:
+                return self._subscript(base, r.random(), d, ints, seqs)
+            finally:
+                self._nw = old_nw
+        if x < 0.64 + self.walrus and ints and not (self.frag and self._nw):
             self.feats.add('namedexpr')
             return '(%s := %s)' % (r.choice(sorted(ints)), self.int_expr(d - 1, ints, seqs))
         if x < 0.64 + self.walrus + self.lazy:
@@ -298,6 +295,19 @@ class Gen:
         if x < 0.80:
             return self.atom(ints)
         return self.call(d, ints, seqs)
+
+    def _subscript(self, base, y, d, ints, seqs):
+        r = self.rng
+        if y < 0.55 or self.frag:
+            return '%s[%s]' % (base, self.operand(d - 1, ints, seqs, False))
+        if y < 0.8:
+            self.feats.add('slice')
+            lo = self.operand(d - 1, ints, seqs) if r.random() < 0.8 else ''
+            hi = self.operand(d - 1, ints, seqs, False) if r.random() < 0.8 else ''
+            st = (':' + self.operand(d - 1, ints, seqs, False)) if r.random() < 0.3 else ''
+            return '%s[%s:%s%s]' % (base, lo, hi, st)
+        self.feats.add('tuple-index')
+        return '%s[%s, %s]' % (base, self.operand(d - 1, ints, seqs), self.operand(d - 1, ints, seqs, False))
 
     def lazy_expr(self, d, ints, seqs):
         """Lazy constructs: trivial operands (accepted) or non-trivial ones (must be rejected under the default)."""
@@ -317,13 +327,20 @@ class Gen:
         return 'tr(%d, [q for q in (%s, %s)])' % (self.newtag(), sub(), sub())
 
     def seq_expr(self, d, ints, seqs):
+        old_nw, self._nw = self._nw, True
+        try:
+            return self._seq_expr(d, ints, seqs)
+        finally:
+            self._nw = old_nw
+
+    def _seq_expr(self, d, ints, seqs):
         r = self.rng
         x = r.random()
         if seqs and (d <= 0 or x < 0.35):
             return r.choice(sorted(seqs))
         n = r.choice([1, 2, 2, 3])
         elts = [self.operand(d - 1, ints, seqs, first=(k == 0)) for k in range(n)]
-        if seqs and r.random() < 0.15:
+        if seqs and not self.frag and r.random() < 0.15:
             self.feats.add('starred')
             elts.insert(r.randrange(len(elts) + 1), '*' + r.choice(sorted(seqs)))
         if x < 0.55:
@@ -368,6 +385,52 @@ class Gen:
         return lines, ints, seqs
 
     def stmt(self, budget, ints, seqs, depth, in_loop):
+        if self.frag:
+            return self.frag_stmt(budget, ints, seqs, depth, in_loop)
+        return self.any_stmt(budget, ints, seqs, depth, in_loop)
+
+    def frag_stmt(self, budget, ints, seqs, depth, in_loop):
+        r = self.rng
+        d = self.depth
+        ind = lambda ls: ['    ' + l for l in ls]     # noqa: E731
+        x = r.random()
+        if depth > 0 and budget > 1 and x < 0.3:
+            if r.random() < 0.5:
+                self.feats.add('if')
+                b1, i1, s1 = self.block(budget - 1, ints, seqs, depth - 1, in_loop)
+                out = ['if %s:' % self.int_expr(d, ints, seqs)] + ind(b1)
+                if r.random() < 0.6:
+                    b2, i2, s2 = self.block(budget - 1, ints, seqs, depth - 1, in_loop)
+                    return out + ['else:'] + ind(b2), i1 & i2, s1 & s2, False
+                return out, ints, seqs, False
+            self.feats.add('for')
+            v = self.fresh(ints)
+            it = self.seq_expr(d, ints, seqs)
+            b1, _, _ = self.block(budget - 1, ints | {v}, seqs, depth - 1, True)
+            out = ['for %s in %s:' % (v, it)] + ind(b1)
+            if r.random() < 0.2:
+                b2, _, _ = self.block(1, ints, seqs, 0, in_loop)
+                out += ['else:'] + ind(b2)
+            return out, ints, seqs, False
+        if x < 0.6:
+            self.feats.add('assign')
+            v = self.fresh(ints)
+            return ['%s = %s' % (v, self.int_expr(d, ints, seqs))], ints | {v}, seqs - {v}, False
+        if x < 0.68:
+            self.feats.add('assign-seq')
+            v = 's%d' % r.randint(1, 3)
+            return ['%s = %s' % (v, self.seq_expr(d, ints, seqs))], ints - {v}, seqs | {v}, False
+        if x < 0.85:
+            self.feats.add('expr-stmt')
+            return [self.call(d, ints, seqs)], ints, seqs, False
+        if x < 0.93:
+            self.feats.add('return')
+            return ['return %s' % self.int_expr(d, ints, seqs)], ints, seqs, True
+        if in_loop:
+            return [r.choice(['break', 'continue'])], ints, seqs, True
+        return ['pass'], ints, seqs, False
+
+    def any_stmt(self, budget, ints, seqs, depth, in_loop):
         r = self.rng
         d = self.depth
         x = r.random()
